@@ -26,6 +26,26 @@ NEEDS = {
  "C08-B": ("amgcl/backend/builtin.hpp", "diagonal(A, invert=true) leaves a stored zero diagonal entry zero instead of the identity", "invert=true and an explicitly stored zero diagonal entry"),
  "C09-A": ("amgcl/relaxation/detail/ilu_solve.hpp", "level computation of the upper triangular solve skips row 0", "level-scheduled ILU solve (>= 4 threads or solve.serial=false), row 0 with an entry right of the diagonal"),
  "C09-B": ("amgcl/detail/spgemm.hpp", "row-merge SpGEMM copies B's row without the coefficient when the row of A has one entry", "more than 16 threads (row-merge algorithm), a single-entry row of A with a value other than 1"),
+ "C01-C": ("amgcl/solver/idrs.hpp", "IDR(s) with residual smoothing no longer updates the smoothed solution x_s in the omega step", "idrs with smoothing=true and at least s+1 iterations; the reported (smoothed) residual no longer belongs to the returned x"),
+ "C01-D": ("amgcl/solver/lgmres.hpp", "LGMRES inner loop runs one iteration past maxiter", "the iteration budget (not convergence) stops the solve inside a restart cycle: iters == maxiter + 1"),
+ "C02-C": ("amgcl/solver/skyline_lu.hpp", "skyline LU multiplies the inverse pivot from the wrong side in factorize()", "block values with non-commuting blocks and a direct coarse solve with >= 3 block rows: the cycle operator B is no longer symmetric"),
+ "C02-D": ("amgcl/relaxation/chebyshev.hpp", "Chebyshev with relax.scale=true takes the spectral radius of the unscaled matrix", "non-default scale=true: B(2^k A) != 2^-k B(A); with small diagonals B is indefinite"),
+ "C03-C": ("amgcl/amg.hpp", "level::rebuild() rebuilds the smoother only on levels that store transfer operators", "allow_rebuild, rebuild(A') with A' != A and a hierarchy whose last level is handled by the smoother (direct_coarse=false / max_levels)"),
+ "C03-D": ("amgcl/backend/builtin.hpp", "transpose() drops the adjoint of the values (same site as C02-B)", "block or complex values with non-self-adjoint prolongation entries (smoothed aggregation): R != adjoint(P)"),
+ "C05-C": ("amgcl/solver/bicgstabl.hpp", "the reset of X and U[0] is moved from operator() into the constructor", "a second solve on the same bicgstabl object: the iterate contains the corrections of earlier solves while the reported residual looks converged"),
+ "C05-D": ("amgcl/solver/idrs.hpp", "the bi-orthogonalisation inner product of IDR(s) has its arguments swapped (conjugated result)", "complex value type, s >= 2, data with genuinely complex inner products"),
+ "C06-C": ("amgcl/relaxation/chebyshev.hpp", "the statements computing the lower and upper spectrum bound are swapped (lo = rho*higher*lower)", "non-default relax.higher != 1"),
+ "C06-D": ("amgcl/relaxation/iluk.hpp", "sparse_vector::add no longer lowers the level of an existing fill entry", "ILU(k) with k >= 2 and a fill position reachable through two pivots where the earlier pivot gives the higher level"),
+ "C07-C": ("amgcl/backend/detail/matrix_ops.hpp", "spmv skips empty rows in the beta != 0 branch (y[i] is left instead of beta*y[i])", "a matrix with an empty row and beta not in {0, 1}"),
+ "C07-D": ("amgcl/adapter/block_matrix.hpp", "the block adapter takes the next block column from the first non-exhausted scalar row instead of the minimum", "hybrid backend / block adapter on a staggered scalar pattern (>= 3 block columns, scalar rows of one block row reaching different block columns)"),
+ "C08-C": ("amgcl/backend/builtin.hpp", "pointwise_matrix takes the column count from the row count", "non-square input (wide or tall)"),
+ "C08-D": ("amgcl/backend/builtin.hpp", "the scaled power method normalises with the norm of the unscaled iterate", "spectral_radius<scale=true> with power_iters >= 2 and diagonal magnitudes below 1: the estimate exceeds the largest singular value"),
+ "C13-C": ("amgcl/backend/detail/matrix_ops.hpp", "spmv accumulates row sums in the matrix's precision instead of the vectors'", "mixed precision (float preconditioner matrix under a double Krylov solver): products rounded to float, true residual stalls at 1e-6 while 1e-9 is reported"),
+ "C13-D": ("amgcl/coarsening/as_scalar.hpp", "as_scalar no longer sorts the rows of the scalar transfer operators before converting them to blocks", "block values with as_scalar<smoothed_aggregation> (unsorted P rows): misplaced entries in the block P, R != P^T"),
+ "C14-C": ("amgcl/preconditioner/runtime.hpp", "the run-time 'nested' preconditioner calls operator() instead of apply(), so the inner solve starts from stale data", "precond.class=nested with an outer solver that hands a non-zero vector to apply (bicgstab, gmres)"),
+ "C14-D": ("amgcl/relaxation/ilut.hpp", "ILUT's fill factor p is imported with an integer default, so fractional text falls back to 2", "relaxation ilut with a fractional p (1.5, 2.5, 0.75) through the run-time interface"),
+ "C16-C": ("amgcl/solver/skyline_lu.hpp", "the zero-pivot test of skyline LU looks at the original diagonal coefficient instead of the pivot after elimination", "a zero diagonal entry whose pivot comes from fill-in (spurious exception), or a non-zero diagonal whose pivot cancels exactly (no exception, inf/NaN)"),
+ "C16-D": ("amgcl/detail/qr.hpp", "QR::factorize no longer zeroes the upper part of Q before applying the reflectors", "a second factorize() on the same QR object with >= 2 columns (tentative_prolongation reuses one QR per thread)"),
  "C10-A": ("amgcl/coarsening/ruge_stuben.hpp", "connect() no longer initialises the strength flags of rows without a negative off-diagonal (re-introduces the defect fixed by d83d7e2)", "ruge_stuben coarsening, a row whose off-diagonals are all positive (or a diagonal-only row), non-zero heap contents"),
  "C10-B": ("amgcl/util.hpp", "circular_buffer::push_back loses the wrap-around of its start index (used only by LGMRES)", "LGMRES storing more than 2K augmentation vectors without a reset: small K/M with several restart cycles, or always_reset=false and repeated solves"),
  "C11-A": ("amgcl/mpi/distributed_matrix.hpp", "an explicit local column count of 0 is treated as 'not specified'", "strip constructor with an explicit column count on a rank that owns rows but no columns (rectangular operator or differing row/column partitions)"),
